@@ -90,6 +90,8 @@ fn decoded_show(d: &Option<DecodedKey>) -> String {
         None => "None".into(),
         Some(DecodedKey::RawKey(k)) => format!("RawKey({})", kname(*k)),
         Some(DecodedKey::Unicode(c)) => format!("Unicode(U+{:04X})", *c as u32),
+        #[allow(unreachable_patterns)]
+        Some(other) => format!("{:?}", other),
     }
 }
 fn decoded_hash(d: &Option<DecodedKey>) -> u64 {
@@ -97,6 +99,8 @@ fn decoded_hash(d: &Option<DecodedKey>) -> u64 {
         None => 0,
         Some(DecodedKey::RawKey(k)) => 1000 + kidx(*k) as u64,
         Some(DecodedKey::Unicode(c)) => 100_000 + *c as u64,
+        #[allow(unreachable_patterns)]
+        Some(_) => 7,
     }
 }
 
@@ -547,6 +551,8 @@ impl Scenario for Events {
                             any_fault = true;
                         }
                     }
+                    #[allow(unreachable_patterns)]
+                    _ => {}
                 }
                 log.borrow_mut().asked.clear();
                 let r = sut.process(KeyEvent::new(k, s));
@@ -611,7 +617,7 @@ impl Scenario for Events {
                         env.cov.evaluations += 1;
                         // (a consultation during a modifier key's own press - its result is discarded -
                         // may see the state just before or just after that press)
-                        if a.mods != refm && a.mods != before {
+                        if !mods_eq9(&a.mods, &refm) && !mods_eq9(&a.mods, &before) {
                             fail!(
                                 'ops,
                                 i,
@@ -701,13 +707,15 @@ impl Scenario for Events {
                                 );
                             }
                         }
+                        #[allow(unreachable_patterns)]
+                        _ => {} // a key state this harness does not know: the statement says nothing about it
                     }
                 }
             }
             // after every operation, whatever it was
             env.cov.evaluations += 1;
             if let (false, Some(m)) = (c14, sut.mods()) {
-                if m != refm {
+                if !mods_eq9(&m, &refm) {
                     fail!(
                         'ops,
                         i,
